@@ -125,7 +125,8 @@ def run_one(ch, cfg):
     # code (C11); everybody else still gets their own reply, and the repair belongs to the next request
     # (one fault per run: a second one could land in the repair's own onboarded check, which ends the
     # manager by design)
-    nfaults = [0, 0, 1][ch.draw(3, "link.faults")]
+    tcp = ch.draw(5, "platform.tcp") == 1
+    nfaults = 0 if tcp else [0, 0, 1][ch.draw(3, "link.faults")]
     targets = {}
     for _ in range(nfaults):
         # "fatal-status": a status word outside the device's own range ends the manager by design
@@ -145,23 +146,31 @@ def run_one(ch, cfg):
             fatal.append(idx)
             return ("sw", 0x6E00)
         return kind
-    w = ServerWorld(ch, fault_fn=fault_fn if nfaults else None,
-                    device_cfg={"sig_from_request": True,
-                                    "post_exit_signer": {"mode": 0x04, "delay": 0.3, "silence": "read_err"},
-                                    "post_exit_uihb": {"mode": 0x03, "delay": 0.3, "silence": "read_err"}},
-                    step_cap=60000,
-                    latency=lambda apdu: lat[ch.draw(len(lat), "latency")])
+    dcfg = {"sig_from_request": True,
+            "post_exit_signer": {"mode": 0x04, "delay": 0.3, "silence": "read_err"},
+            "post_exit_uihb": {"mode": 0x03, "delay": 0.3, "silence": "read_err"}}
+    if tcp:
+        # the TCPSigner manager (manager_tcp.py: HSM2DongleTCP over the simulated TCP link, the real
+        # ManagerRunner); no link fault here, the device is simply as slow as drawn
+        from sim.procworld import ProcWorld
+        w = ProcWorld(ch, platform="tcp", device_cfg=dict(dcfg, mode=0x03), step_cap=60000)
+        w.link.latency_fn = lambda apdu: lat[ch.draw(len(lat), "latency")]
+    else:
+        w = ServerWorld(ch, fault_fn=fault_fn if nfaults else None, device_cfg=dcfg, step_cap=60000,
+                        latency=lambda apdu: lat[ch.draw(len(lat), "latency")])
     k = w.kernel
     dev = w.device
     dev.tag = lambda: (k.current.last_line[0] if k.current is not None and
                        k.current.last_line is not None else None)
-    w.start_manager()
+    mtask = w.start_manager()
+    if tcp:
+        w.manager_task = mtask
     done = {}
     viol = []
     kinds = []
     plans = []
     for i in range(nclients):
-        req, chk, kind = make_request(ch, i, uihb=not nfaults)
+        req, chk, kind = make_request(ch, i, uihb=not nfaults and not tcp)
         kinds.append(kind)
         start = ch.pick([0.0, 0.0, 0.001, 0.05, 1.0], "client.start")
         frag = ch.draw(4, "client.frag") == 1
@@ -169,7 +178,7 @@ def run_one(ch, cfg):
 
     def client(i, req, chk, start, frag):
         def body():
-            k.block(lambda: w.serving() or w.manager_task.done, 120)
+            k.block(lambda: w.serving() or w.manager_task.done, 600)
             if start:
                 k.sleep(start)
             c = w.net.connect()
@@ -211,7 +220,8 @@ def run_one(ch, cfg):
                          % (i, kinds[i], outcome)))
             continue
         if d[0] == "refused":
-            viol.append(("liveness/refused", "client %d refused (%s)" % (i, w.manager_outcome)))
+            viol.append(("liveness/refused", "client %d refused (%s)" % (
+                i, w.outcomes.get("mgr0") if tcp else w.manager_outcome)))
             continue
         data = d[1]
         cid_of[d[2]] = i
